@@ -95,6 +95,13 @@ func genC20(tier string, r *rng, emit func(string)) {
 		}
 	})
 	sample(3, gens["C05"])
+	// masks through lazy and physical transposition (C15's cases), under every build
+	gens["C15"](tier, r, func(c string) {
+		// (shapes without length-one axes: those are C15's own known-finding zone in every build)
+		if strings.HasPrefix(c, "mk ") && strings.Contains(c, "transpose") && !strings.Contains(c, ":1,") && !strings.Contains(c, ",1:") && !strings.Contains(c, ",1,") {
+			emit(c)
+		}
+	})
 	// (2) float programs for the specialised engines: Add in every mode and layout, FMA, FMAScalar,
 	//     Inner, MatMul, MatVecMul
 	lays := []string{"rm", "T", "stepslice", "cm", "slice", "mat"}
@@ -118,6 +125,15 @@ func genC20(tier string, r *rng, emit func(string)) {
 						p.ops = append(p.ops, fmt.Sprintf("bin:add:%d:%d:%s", a, b, m))
 						emit(fmt.Sprintf("proge %s %s %s", eng, dt, p.prog()))
 						emit(fmt.Sprintf("prog %s %s", dt, p.prog()))
+						// a destination that IS one of the operands
+						if mode == "reuse" || mode == "incr" {
+							for _, al := range []int{a, b} {
+								q := p
+								q.ops = append(append([]string{}, p.ops[:len(p.ops)-1]...), fmt.Sprintf("bin:add:%d:%d:%s.%d", a, b, mode, al))
+								emit(fmt.Sprintf("proge %s %s %s", eng, dt, q.prog()))
+								emit(fmt.Sprintf("prog %s %s", dt, q.prog()))
+							}
+						}
 					}
 					// y += a*x and y += a*s on every layout of a and y
 					for _, lx := range []string{"rm", "cm", "T", "stepslice"} {
